@@ -3,7 +3,9 @@
      - an `mworld` is a `world` plus two optional meanings: mw_call_mut f args = Some (Ok (result, args afterwards)) and
        mw_meth_mut m recv args = Some (Ok (result, receiver afterwards, args afterwards)); where they answer None the plain
        w_call / w_meth of the base world apply. Every argument that is syntactically a LOCAL name gets its value afterwards
-       written back (single-owner values, as in PyAst.v; aliasing between two names is still not modelled);
+       written back (single-owner values, as in PyAst.v; aliasing between two names is still not modelled); the
+       receiver of a method call is written back when it is a PLACE - a local name or an attribute path below one
+       (`self._data.extend(..)` updates `self`), through w_setattr;
      - `run_mut fuel f args` returns the result AND the final values of the function's own parameters (a `return` keeps the
        environment of the point where it was executed).
    Everything else is PyAst.v's `eval` / `exec` verbatim. Syntax (`pexp`, `pstmt`, `pfun`) and `world` are PyAst's. *)
@@ -46,11 +48,31 @@ Definition owner_of (env : penv) (e : pexp) : option string :=
   | _ => None
   end.
 
-(* values afterwards written back to the arguments that are local names *)
-Fixpoint write_back (env0 : penv) (args : list pexp) (vs : list V) (env : penv) : penv :=
+(* A "place" is a local name or an attribute path below one (x, x.a, x.a.b). place_set stores a value there, rebuilding the
+   objects on the path with w_setattr; an expression that is not a place (or whose root is not a local) is left alone. *)
+Fixpoint place_get (env : penv) (p : pexp) : option V :=
+  match p with
+  | PName x => lookup x env
+  | PAttr q a => match place_get env q with
+                 | Some o => match w_attr W a o with Ok v => Some v | Raise _ => None end
+                 | None => None
+                 end
+  | _ => None
+  end.
+Fixpoint place_set (env : penv) (p : pexp) (v : V) : penv :=
+  match p with
+  | PName x => match lookup x env with Some _ => update x v env | None => env end
+  | PAttr q a => match place_get env q with
+                 | Some o => match w_setattr W a o v with Ok o' => place_set env q o' | Raise _ => env end
+                 | None => env
+                 end
+  | _ => env
+  end.
+
+(* values afterwards written back to the arguments that are places *)
+Fixpoint write_back (args : list pexp) (vs : list V) (env : penv) : penv :=
   match args, vs with
-  | a :: ar, v :: vr =>
-    write_back env0 ar vr (match owner_of env0 a with Some x => update x v env | None => env end)
+  | a :: ar, v :: vr => write_back ar vr (place_set env a v)
   | _, _ => env
   end.
 
@@ -75,7 +97,7 @@ Fixpoint eval (env : penv) (e : pexp) {struct e} : res (V * penv) :=
   | PCall f args =>
       let* (vs, env1) := evals env args in
       match mw_call_mut MW f vs with
-      | Some m => let* (r, vs') := m in Ok (r, write_back env args vs' env1)
+      | Some m => let* (r, vs') := m in Ok (r, write_back args vs' env1)
       | None => let* r := w_call W f vs in Ok (r, env1)
       end
   | PMeth m recv args =>
@@ -84,10 +106,10 @@ Fixpoint eval (env : penv) (e : pexp) {struct e} : res (V * penv) :=
       match mw_meth_mut MW m rv vs with
       | Some mm =>
         let* (r, rv', vs') := mm in
-        Ok (r, write_back env args vs' (match owner_of env recv with Some x => update x rv' env2 | None => env2 end))
+        Ok (r, write_back args vs' (place_set env2 recv rv'))
       | None =>
         let* (r, rv') := w_meth W m rv vs in
-        Ok (r, match owner_of env recv with Some x => update x rv' env2 | None => env2 end)
+        Ok (r, place_set env2 recv rv')
       end
   | PCmp op a b => let* (x, env1) := eval env a in let* (y, env2) := eval env1 b in
                    let* r := w_cmp W op x y in Ok (w_bool W r, env2)
